@@ -682,6 +682,14 @@ func (e *Engine) evalCall(x *Expr, se *SpecEnv) Val {
 	case "has":
 		// has(m, k): key k is present in map m
 		return mkBool(e.mapHas(se.st, arg(0), arg(1)))
+	case "apply":
+		// apply(f, args...): the value the pure function value f returns for these arguments
+		fv := arg(0)
+		var as []Val
+		for i := 1; i < len(x.Args); i++ {
+			as = append(as, arg(i))
+		}
+		return e.applyCallbackPure(fv, "fnval", as, se)
 	case "mark":
 		// mark(x): an always-true marker used purely as an instantiation trigger
 		a := arg(0)
